@@ -81,6 +81,10 @@ def specs():
                           ('(void*)@{vcall:%s}(&r1->__b0.__b1) == (void*)(first == 97 ? S4 : S5)' % acc, 'the first node keeps its spelling after the caller reused its buffer')],
                     claim='a name asked by word through a reused buffer is the name of the word the buffer holds at that request', what=k.replace('_', ' by ') + ' (reused buffer)')
     S['literal'] = two('literal', 'FAC', 'TF', 'literal')
+    # two String NODES with one spelling (the constructors take any ipr::String, not only this Lexicon's own): still one name per spelling
+    for fn, fac, what in (('identifier', 'NFAC', 'identifier'), ('operator', 'NFAC', 'operator name'), ('logogram', 'NFAC', 'logogram'), ('linkage', 'FAC', 'linkage')):
+        S[fn + '_lookalike'] = dict(pre='  string_t* a0 = S4; string_t* b0 = nondet_bool() ? S6 : S5;\n', call1='@{G_%s}(%s, a0)' % (fn, fac), call2='@{G_%s}(%s, b0)' % (fn, fac),
+                                    same='b0 == S6', checks=[], what=what + ', String nodes of equal spelling', claim='the %s of a spelling is one node, whichever String node carries the spelling' % what)
     S['template_id'] = two('template_id', 'FAC', 'EL', 'template-id')
     return S
 
@@ -121,4 +125,16 @@ def build(tier, seed):
         'get_string (interning) through its contract: the String node of that spelling (C03); foreign Strings are spelled a / b, one node per spelling',
         'word_if_known (reserved-word lookup) through its contract, proved on the real code by obligation C03.word_if_known',
         'u8string_view comparisons = bytewise lexicographic; std::less<> = value / address order'])
-    return [u], obs, meta
+    # the contracts assumed above are established on the real code by C03 (interning, reserved-word lookup, the arena that keeps
+    # published spellings intact) and C08 (the tables): their obligations are run here too, so that a change that breaks the
+    # one-Identifier-per-spelling guarantee underneath the name constructors is reported by this check as well
+    import C03, C08
+    u3, o3, m3 = C03.build(tier, seed)
+    for o in o3:
+        o.id = 'C04.strings.' + o.id.split('.', 1)[1]
+    u8, o8, m8 = C08.build(tier, seed)
+    o8 = [o for o in o8 if o.kind != 'K5' and not getattr(o, 'stand_in', None)]
+    for o in o8:
+        o.id = 'C04.tables.' + o.id.split('.', 1)[1]
+    meta['assumptions'] += [a for a in m3['assumptions'] if a not in meta['assumptions']]
+    return [u] + u3 + u8, obs + o3 + o8, meta
